@@ -116,6 +116,19 @@ func shouldEscapeTextNode(data string) bool {
 	return strings.ContainsAny(data, "<>&\"'")
 }
 
+// isRawTextBody reports whether data is the body of an element whose content an HTML parser
+// reads as raw text without decoding character references (xmp, iframe, noembed, noframes),
+// and can be written verbatim: it must not contain the sequence that would end the element.
+// Static template text never contains that sequence (the template parser would have ended
+// the element there); an interpolated value that does is entity-escaped like any other text.
+func isRawTextBody(tag, data string) bool {
+	switch tag {
+	case "xmp", "iframe", "noembed", "noframes":
+		return !strings.Contains(strings.ToLower(data), "</"+tag)
+	}
+	return false
+}
+
 // renderDoctype serialises a doctype node, e.g. <!DOCTYPE html>, including legacy
 // public and system identifiers when present.
 func renderDoctype(node *html.Node) string {
@@ -164,7 +177,7 @@ func renderNodeWithContext(ctx VueContext, w io.Writer, node *html.Node, indent 
 		spaces := getIndent(indent)
 		parentTag := ctx.CurrentTag()
 		// Skip HTML escaping inside script and style tags
-		if parentTag == "script" || parentTag == "style" {
+		if parentTag == "script" || parentTag == "style" || isRawTextBody(parentTag, node.Data) {
 			_, _ = w.Write([]byte(spaces + node.Data))
 		} else if shouldEscapeTextNode(node.Data) {
 			_, _ = w.Write([]byte(spaces + html.EscapeString(node.Data)))
@@ -259,7 +272,7 @@ func renderNodeWithContext(ctx VueContext, w io.Writer, node *html.Node, indent 
 		} else if childCount == 1 && firstChild.Type == html.TextNode {
 			_, _ = w.Write([]byte(spaces + "<" + tagName + renderAttrs(node.Attr) + ">"))
 			// Skip HTML escaping inside script and style tags
-			if tagName == "script" || tagName == "style" {
+			if tagName == "script" || tagName == "style" || isRawTextBody(tagName, firstChild.Data) {
 				_, _ = w.Write([]byte(firstChild.Data))
 			} else if shouldEscapeTextNode(firstChild.Data) {
 				_, _ = w.Write([]byte(html.EscapeString(firstChild.Data)))
